@@ -100,6 +100,7 @@ def make_items(cx, spec, nprog, nenv, streams=('corpus', 'fragment', 'shapes')):
         for i in range(nprog):
             items.append({'name': f'layout/{cx.seed}/{i}', 'src': gen.layout(cx.seed, i), 'nenv': nenv // 3, 'seed': cx.seed, 'stream': 'layout'})
             items.append({'name': f'dense/{cx.seed}/{i}', 'src': gen.dense(cx.seed, i), 'nenv': nenv // 3, 'seed': cx.seed, 'stream': 'layout'})
+            items.append({'name': f'deadcode/{cx.seed}/{i}', 'src': gen.deadcode(cx.seed, i), 'nenv': nenv // 3, 'seed': cx.seed, 'stream': 'layout'})
     for it in items:
         it['ctx_fields'] = sorted(spec['ctx_fields']) if spec.get('ctx_fields') else None
         it['ctx_kinds'] = sorted(spec['ctx_kinds']) if spec.get('ctx_kinds') else None
